@@ -161,6 +161,8 @@ def value_attr(ex, o, attr, line):
     if isinstance(o, ExcVal):
         if attr == 'args':
             return (o.msg,)
+    if isinstance(o, Builtin) and (o.name + '.' + attr) in ex.ext_builtins:
+        return Builtin(o.name + '.' + attr)
     if isinstance(o, T):
         return BuiltinMethod(o, attr)
     if isinstance(o, SuperRef):
